@@ -50,7 +50,7 @@ class Case:
 
 @st.composite
 def strategy_(draw: Any) -> Case:
-    unit = draw(S.units(S.Features(max_defs=5)))
+    unit = draw(S.units(S.Features(max_defs=5, subdirs=True)))
     msgs = unit_messages(unit)
     rand: Dict[int, List[Any]] = {}
     for i, m in enumerate(msgs):
